@@ -687,7 +687,9 @@ func (t *tScreen) Fini() {
 }
 
 func (t *tScreen) finish() {
+	verifPoint("fin-enter")
 	close(t.quit)
+	verifPoint("fin-closed")
 	t.finalize()
 }
 
@@ -1231,9 +1233,12 @@ func (t *tScreen) resize() {
 	t.h = ws.Height
 	t.w = ws.Width
 	ev := &EventResize{t: time.Now(), ws: ws}
+	verifPoint("resize-post", len(t.eventQ), cap(t.eventQ))
 	select {
 	case t.eventQ <- ev:
+		verifPoint("resize-sent", len(t.eventQ), cap(t.eventQ))
 	default:
+		verifPoint("resize-drop", len(t.eventQ), cap(t.eventQ))
 	}
 }
 
@@ -1762,11 +1767,15 @@ func (t *tScreen) parseRune(buf *bytes.Buffer, evs *[]Event) (bool, bool) {
 
 func (t *tScreen) scanInput(buf *bytes.Buffer, expire bool) {
 	evs := t.collectEventsFromInput(buf, expire)
+	verifPoint("scan-evs", len(evs), buf.Len(), verifBool(expire))
 
 	for _, ev := range evs {
+		verifPoint("scan-send", len(t.eventQ), cap(t.eventQ))
 		select {
 		case t.eventQ <- ev:
+			verifPoint("scan-sent", len(t.eventQ), cap(t.eventQ))
 		case <-t.quit:
+			verifPoint("scan-quit", len(t.eventQ), cap(t.eventQ))
 			return
 		}
 	}
@@ -1869,14 +1878,19 @@ func (t *tScreen) collectEventsFromInput(buf *bytes.Buffer, expire bool) []Event
 
 func (t *tScreen) mainLoop(stopQ chan struct{}) {
 	defer t.wg.Done()
+	defer verifPoint("main-exit")
 	buf := &bytes.Buffer{}
 	for {
+		verifPoint("main-select", len(t.keychan), cap(t.keychan), len(t.resizeQ), buf.Len())
 		select {
 		case <-stopQ:
+			verifPoint("main-stop")
 			return
 		case <-t.quit:
+			verifPoint("main-quit")
 			return
 		case <-t.resizeQ:
+			verifPoint("main-resize", len(t.resizeQ))
 			t.Lock()
 			t.cx = -1
 			t.cy = -1
@@ -1884,8 +1898,10 @@ func (t *tScreen) mainLoop(stopQ chan struct{}) {
 			t.cells.Invalidate()
 			t.draw()
 			t.Unlock()
+			verifPoint("main-resize-end")
 			continue
 		case <-t.keytimer.C:
+			verifPoint("main-timer", buf.Len())
 			// If the timer fired, and the current time
 			// is after the expiration of the escape sequence,
 			// then we assume the escape sequence reached its
@@ -1905,7 +1921,9 @@ func (t *tScreen) mainLoop(stopQ chan struct{}) {
 				}
 				t.keytimer.Reset(time.Millisecond * 50)
 			}
+			verifPoint("main-timer-end", buf.Len())
 		case chunk := <-t.keychan:
+			verifPoint("main-chunk", len(chunk), len(t.keychan), cap(t.keychan))
 			buf.Write(chunk)
 			t.keyexpire = time.Now().Add(time.Millisecond * 50)
 			t.scanInput(buf, false)
@@ -1918,6 +1936,7 @@ func (t *tScreen) mainLoop(stopQ chan struct{}) {
 			if buf.Len() > 0 {
 				t.keytimer.Reset(time.Millisecond * 50)
 			}
+			verifPoint("main-chunk-end", buf.Len())
 		}
 	}
 }
@@ -1925,30 +1944,39 @@ func (t *tScreen) mainLoop(stopQ chan struct{}) {
 func (t *tScreen) inputLoop(stopQ chan struct{}) {
 
 	defer t.wg.Done()
+	defer verifPoint("in-exit")
 	for {
+		verifPoint("in-top")
 		select {
 		case <-stopQ:
+			verifPoint("in-stop")
 			return
 		default:
 		}
 		chunk := make([]byte, 128)
 		n, e := t.tty.Read(chunk)
+		verifPoint("in-read", n, verifBool(e != nil))
 		switch e {
 		case nil:
 		default:
 			t.Lock()
 			running := t.running
 			t.Unlock()
+			verifPoint("in-err", verifBool(running), len(t.eventQ), cap(t.eventQ))
 			if running {
 				select {
 				case t.eventQ <- NewEventError(e):
+					verifPoint("in-err-sent", len(t.eventQ), cap(t.eventQ))
 				case <-t.quit:
+					verifPoint("in-err-quit")
 				}
 			}
 			return
 		}
 		if n > 0 {
+			verifPoint("in-send", len(t.keychan), cap(t.keychan), n)
 			t.keychan <- chunk[:n]
+			verifPoint("in-sent", len(t.keychan), cap(t.keychan))
 		}
 	}
 }
@@ -2060,6 +2088,7 @@ func (t *tScreen) engage() error {
 		return ErrNoScreen
 	}
 	t.tty.NotifyResize(func() {
+		verifPoint("notify", len(t.resizeQ), cap(t.resizeQ))
 		select {
 		case t.resizeQ <- true:
 		default:
@@ -2105,6 +2134,7 @@ func (t *tScreen) engage() error {
 	}
 
 	t.wg.Add(2)
+	verifPoint("eng-spawn", 2)
 	go t.inputLoop(stopQ)
 	go t.mainLoop(stopQ)
 	return nil
@@ -2115,10 +2145,12 @@ func (t *tScreen) engage() error {
 // can take over the terminal interface.  This restores the TTY mode that was
 // present when the application was first started.
 func (t *tScreen) disengage() {
+	verifPoint("dis-enter")
 
 	t.Lock()
 	if !t.running {
 		t.Unlock()
+		verifPoint("dis-idle")
 		return
 	}
 	t.running = false
@@ -2126,10 +2158,13 @@ func (t *tScreen) disengage() {
 	close(stopQ)
 	_ = t.tty.Drain()
 	t.Unlock()
+	verifPoint("dis-stopped")
 
 	t.tty.NotifyResize(nil)
+	verifPoint("dis-wait")
 	// wait for everything to shut down
 	t.wg.Wait()
+	verifPoint("dis-joined")
 
 	// shutdown the screen and disable special modes (e.g. mouse and bracketed paste)
 	ti := t.ti
@@ -2162,6 +2197,7 @@ func (t *tScreen) disengage() {
 	t.disableFocusReporting()
 
 	_ = t.tty.Stop()
+	verifPoint("dis-done")
 }
 
 // Beep emits a beep to the terminal.
